@@ -123,6 +123,28 @@ pub fn gen_clean(rng: &mut Rng) -> (Obj, Vec<Record>) {
         }
     }
     annotate(rng, &mut root);
+    // constant object references: `buddy: <id of another widget>` (a <cstring> in the .ui)
+    let widget_ids: Vec<String> = root
+        .pre_order()
+        .iter()
+        .filter(|o| matches!(family_of(&o.class), Family::Widget | Family::Menu) && o.class != "QButtonGroup")
+        .filter_map(|o| o.id.clone())
+        .collect();
+    fn add_buddies(rng: &mut Rng, o: &mut Obj, ids: &[String], ledger: &mut Vec<Record>) {
+        if o.class == "QLabel" && !o.bindings.iter().any(|(l, _)| l == "buddy") && rng.chance(1, 4) {
+            let me = o.id.clone().unwrap();
+            let others: Vec<&String> = ids.iter().filter(|i| **i != me).collect();
+            if !others.is_empty() {
+                let b = (*rng.pick(&others)).clone();
+                o.bindings.push(("buddy".into(), b.clone()));
+                ledger.push(Record { object: me, lhs: "buddy".into(), fate: Fate::Const { tag: "cstring".into(), text: b } });
+            }
+        }
+        for c in &mut o.children {
+            add_buddies(rng, c, ids, ledger);
+        }
+    }
+    add_buddies(rng, &mut root, &widget_ids, &mut ledger);
     (root, ledger)
 }
 
@@ -141,7 +163,7 @@ pub fn normalise_separators(root: &Obj, records: &mut [Record]) {
 
 /// document-level options: a quarter of the documents import with a version (WARNING "import version is ignored")
 pub fn gen_opts(rng: &mut Rng) -> DocOpts {
-    DocOpts { import_version: rng.chance(1, 4) }
+    DocOpts { import_version: rng.chance(1, 4), path: None }
 }
 
 /// does the printed document make the translator emit a warning?
@@ -159,7 +181,107 @@ pub fn has_separator_false_only(root: &Obj) -> bool {
     root.pre_order().iter().any(|o| o.bindings.len() == 1 && o.bindings[0].0 == "separator" && o.bindings[0].1 == "false")
 }
 
-pub const FAULT_KINDS: usize = 26;
+/// Property types read from the metatypes (Qt 5 JSON + the translator's own tweaks), used to pick — by TYPE, not by name —
+/// the properties whose value the .ui pass cannot serialise from a constant.
+pub struct PropTable {
+    /// class -> (own properties (name, type), super classes, attached class)
+    classes: std::collections::HashMap<String, (Vec<(String, String)>, Vec<String>, Option<String>)>,
+}
+
+#[derive(Clone, Copy, Debug, PartialEq)]
+pub enum ValueKind {
+    /// a class / gadget without a scalar form in the .ui pass (QFont, QSizePolicy, QRect, QLocale, QIcon …)
+    Class,
+    Variant,
+    /// pointer to an object class
+    Pointer,
+}
+
+impl PropTable {
+    fn load() -> PropTable {
+        let mut classes = env::load_qt_classes();
+        classes.extend(env::adversarial_classes());
+        qmluic::metatype_tweak::apply_all(&mut classes);
+        let mut m = std::collections::HashMap::new();
+        for c in classes {
+            let props = c.properties.iter().map(|p| (p.name.clone(), p.r#type.clone())).collect();
+            let supers = c.super_classes.iter().map(|s| s.name.clone()).collect();
+            let attached = c.class_infos.iter().find(|i| i.name == "QML.Attached").map(|i| i.value.clone());
+            m.insert(c.qualified_class_name.clone(), (props, supers, attached));
+        }
+        PropTable { classes: m }
+    }
+
+    /// all properties of a class incl. the inherited ones
+    pub fn properties_of(&self, class: &str) -> Vec<(String, String)> {
+        let mut out = vec![];
+        let mut todo = vec![class.to_owned()];
+        let mut seen = BTreeSet::new();
+        while let Some(c) = todo.pop() {
+            if !seen.insert(c.clone()) {
+                continue;
+            }
+            if let Some((props, supers, _)) = self.classes.get(&c) {
+                out.extend(props.iter().cloned());
+                todo.extend(supers.iter().cloned());
+            }
+        }
+        out
+    }
+
+    /// the class holding the attached properties of `class` (`QLayout` -> `QLayoutAttached`), searched up the super classes
+    pub fn attached_class_of(&self, class: &str) -> Option<String> {
+        let mut todo = vec![class.to_owned()];
+        let mut seen = BTreeSet::new();
+        while let Some(c) = todo.pop() {
+            if !seen.insert(c.clone()) {
+                continue;
+            }
+            if let Some((_, supers, att)) = self.classes.get(&c) {
+                if att.is_some() {
+                    return att.clone();
+                }
+                todo.extend(supers.iter().cloned());
+            }
+        }
+        None
+    }
+
+    /// how the type of a property reads: a class the constant pass has no scalar form for, QVariant, or an object pointer
+    pub fn value_kind(&self, ty: &str) -> Option<ValueKind> {
+        // classes the constant pass does accept a scalar for: colour strings, cursor shapes, key sequences, pixmap paths
+        const SCALAR_FORM: [&str; 5] = ["QBrush", "QColor", "QCursor", "QKeySequence", "QPixmap"];
+        if ty == "QVariant" {
+            Some(ValueKind::Variant)
+        } else if let Some(t) = ty.strip_suffix('*') {
+            if self.classes.contains_key(t.trim()) {
+                Some(ValueKind::Pointer)
+            } else {
+                None
+            }
+        } else if self.classes.contains_key(ty) && !SCALAR_FORM.contains(&ty) {
+            Some(ValueKind::Class)
+        } else {
+            None
+        }
+    }
+
+    /// properties of `class` of the given kind
+    pub fn candidates(&self, class: &str, kind: ValueKind) -> Vec<(String, String)> {
+        let mut v: Vec<(String, String)> = self.properties_of(class).into_iter().filter(|(_, t)| self.value_kind(t) == Some(kind)).collect();
+        v.sort();
+        v.dedup();
+        v
+    }
+}
+
+pub fn prop_table() -> &'static PropTable {
+    use std::sync::OnceLock;
+    static T: OnceLock<PropTable> = OnceLock::new();
+    T.get_or_init(PropTable::load)
+}
+
+pub const FAULT_KINDS: usize = 30;
 
 struct Target<'a> {
     idx: usize,
@@ -187,6 +309,22 @@ pub fn plant_fault(rng: &mut Rng, root: &Obj, kind: usize) -> Option<(Obj, Vec<F
     let is_sep = |o: &Obj| o.bindings.iter().any(|(l, _)| l == "separator");
     let widgetish = |o: &Obj| matches!(family_of(&o.class), Family::Widget | Family::Menu) && o.class != "QButtonGroup";
     let is_view = |o: &Obj| matches!(o.class.as_str(), "QTableView" | "QTreeView");
+    // properties of the object (resp. attached properties offered by its parent) picked by the TYPE the metatypes give them
+    let typed_candidates = |o: &Obj, k: ValueKind| -> Vec<(String, String)> {
+        // names handled by special consumers are not part of this class of faults
+        const SPECIAL: [&str; 6] = ["actions", "model", "horizontalHeader", "verticalHeader", "header", "separator"];
+        prop_table().candidates(&o.class, k).into_iter().filter(|(n, _)| !SPECIAL.contains(&n.as_str()) && !has(o, n)).collect()
+    };
+    let attached_candidates = |p: &Obj, o: &Obj| -> Vec<(String, String, String)> {
+        // only where the parent consumes the attached map (tab pages): elsewhere the binding is a left-over (another kind)
+        if p.class != "QTabWidget" || !widgetish(o) {
+            return vec![];
+        }
+        match prop_table().attached_class_of(&p.class) {
+            Some(ac) => prop_table().candidates(&ac, ValueKind::Class).into_iter().filter(|(n, _)| !has(o, &format!("{}.{n}", p.class))).map(|(n, t)| (p.class.clone(), n, t)).collect(),
+            None => vec![],
+        }
+    };
     let base = LeafSpec::default();
     let all = (true, true, true);
     // (name, lhs, rhs, spec, message, reported, flags(map, att, unresolved, unknown type), applicable)
@@ -217,6 +355,10 @@ pub fn plant_fault(rng: &mut Rng, root: &Obj, kind: usize) -> Option<(Obj, Vec<F
         22 => ("handler-in-object-map", "HEADER.onSectionClicked".into(), "function(i: int) {}".into(), LeafSpec { enters: false, konst: Konst::Dyn, ..base }, "attached/nested/gadget callback is not supported", all, (false, false, false, false), Box::new(|t| is_view(t.o))),
         23 => ("handler-in-gadget-map", "font.onFoo".into(), "srcEdit.clear()".into(), LeafSpec { enters: false, konst: Konst::Dyn, ..base }, "unknown signal of class 'QFont'", all, (false, false, false, false), Box::new(|t| widgetish(t.o))),
         24 => ("handler-in-attached-map", "QLayout.onFoo".into(), "srcEdit.clear()".into(), LeafSpec { enters: false, konst: Konst::Dyn, readable: false, writable: false, ..base }, "unknown signal of class 'QLayoutAttached'", all, (false, false, false, false), Box::new(|t| t.parent.map(|p| family_of(&p.class) == Family::Layout).unwrap_or(false))),
+        25 => ("constant-on-class-typed-property", "TYPED:class".into(), String::new(), LeafSpec { konst: Konst::Fail, ret_ok: false, ..base }, "unsupported constant expression type", all, (false, false, false, false), Box::new(|t| !typed_candidates(t.o, ValueKind::Class).is_empty())),
+        26 => ("constant-on-variant-property", "TYPED:variant".into(), String::new(), LeafSpec { konst: Konst::Fail, ret_ok: false, ..base }, "unsupported constant expression type: QVariant", all, (false, false, false, false), Box::new(|t| !typed_candidates(t.o, ValueKind::Variant).is_empty())),
+        27 => ("non-object-on-pointer-property", "TYPED:pointer".into(), String::new(), LeafSpec { konst: Konst::Fail, ret_ok: false, ..base }, "expression type mismatch", all, (false, false, false, false), Box::new(|t| !typed_candidates(t.o, ValueKind::Pointer).is_empty())),
+        28 => ("constant-on-class-typed-attached-property", "TYPED:attached".into(), String::new(), LeafSpec { konst: Konst::Fail, ret_ok: false, readable: false, writable: false, ..base }, "unsupported constant expression type", all, (false, false, false, false), Box::new(|t| t.parent.map(|p| !attached_candidates(p, t.o).is_empty()).unwrap_or(false))),
         _ => ("unknown-property-on-action-or-spacer", "noSuchProperty".into(), "1".into(), LeafSpec { enters: false, ..base }, "unknown property of class", all, (false, false, false, false), Box::new(|t| matches!(family_of(&t.o.class), Family::Action | Family::Spacer))),
     };
     // never touch the dynamic-expression sources (other bindings read them) and keep static separators static
@@ -259,6 +401,29 @@ pub fn plant_fault(rng: &mut Rng, root: &Obj, kind: usize) -> Option<(Obj, Vec<F
         for (l, r) in more.iter().take(rng.below(3)) {
             extra.push(((*l).to_owned(), (*r).to_owned()));
         }
+    }
+    if let Some(k) = lhs.strip_prefix("TYPED:") {
+        let value = (*rng.pick(&["1", "\"x\"", "true", "0.5"])).to_owned();
+        let (l, ty) = match k {
+            "attached" => {
+                let c = attached_candidates(t.parent.unwrap(), t.o);
+                let (pc, n, ty) = rng.pick(&c).clone();
+                (format!("{pc}.{n}"), ty)
+            }
+            _ => {
+                let kind = match k {
+                    "class" => ValueKind::Class,
+                    "variant" => ValueKind::Variant,
+                    _ => ValueKind::Pointer,
+                };
+                let c = typed_candidates(t.o, kind);
+                rng.pick(&c).clone()
+            }
+        };
+        let _ = ty;
+        lhs = l;
+        // a pointer property bound to a scalar: any non-object constant
+        rhs = value;
     }
     if lhs.starts_with("HEADER.") {
         let h = if t.o.class == "QTreeView" { "header" } else { *rng.pick(&["horizontalHeader", "verticalHeader"]) };
@@ -467,6 +632,7 @@ fn decode_doc(args: &[Sexp]) -> (ledger::Tables, Doc) {
             .iter()
             .map(|b| ledger::Binding { id: b.0, obj: b.1, lhs: b.2.clone(), rhs: String::new(), kind: ledger::split_kind_pub(&b.2), spec: LeafSpec::default(), fate: None, planted: false, range: (b.3, b.4) })
             .collect(),
+        path: None,
     };
     (t, doc)
 }
@@ -924,7 +1090,7 @@ fn witness_request(name: &str) -> Sexp {
                     f.name = "unknown-property";
                     let b = Obj::new("QPushButton").with_id("b").bind("onClicked", "function(c: bool): void { srcCheck.checked = c }").bind("noSuchProperty", "1");
                     let r = root(vec![check, b]);
-                    let doc = Doc::build_opts(&r, &[], std::slice::from_ref(&f), DocOpts { import_version: true });
+                    let doc = Doc::build_opts(&r, &[], std::slice::from_ref(&f), DocOpts { import_version: true, path: None });
                     let mut args = tables_of(&doc);
                     args.push(fault_sexp(&doc, &f, true));
                     node("c04-fault", args)
@@ -963,6 +1129,33 @@ fn witness_request(name: &str) -> Sexp {
                     node("c04-ledger", args)
                 }
             }
+        }
+        // constants bound to properties whose type has no constant form in the .ui pass: each is diagnosed inside its own text
+        "typed-constants" => {
+            let spec = LeafSpec { konst: Konst::Fail, ret_ok: false, ..LeafSpec::default() };
+            let mk = |obj: usize, lhs: &str, rhs: &str, message: &'static str| Fault { name: "constant-on-class-typed-property", obj, lhs: lhs.into(), rhs: rhs.into(), spec: spec.clone(), map_fault: false, att_fault: false, att_unresolved: false, unknown_type: false, message, reported: (true, true, true) };
+            let on_label = [("font", "\"Monospace\""), ("sizePolicy", "1"), ("geometry", "1"), ("locale", "\"C\"")];
+            let mut l = Obj::new("QLabel").with_id("l").bind("text", "\"Hello\"");
+            let mut fs = vec![];
+            for (a, b) in on_label {
+                l = l.bind(a, b);
+                fs.push(mk(1, a, b, "unsupported constant expression type"));
+            }
+            let combo = Obj::new("QComboBox").with_id("c").bind("currentData", "2");
+            fs.push(mk(2, "currentData", "2", "unsupported constant expression type: QVariant"));
+            let page = Obj::new("QWidget").with_id("p").bind("QTabWidget.title", "\"t\"").bind("QTabWidget.icon", "\"x\"");
+            let mut att = mk(4, "QTabWidget.icon", "\"x\"", "unsupported constant expression type: QIcon");
+            att.spec.readable = false;
+            att.spec.writable = false;
+            fs.push(att);
+            let l2 = Obj::new("QLabel").with_id("l2").bind("buddy", "1");
+            fs.push(mk(5, "buddy", "1", "expression type mismatch"));
+            let r = root(vec![l, combo, Obj::new("QTabWidget").with_id("tabs").child(page), l2]);
+            let doc = Doc::build(&r, &[], &fs);
+            let mut args = tables_of(&doc);
+            args.push(fault_sexp(&doc, &fs[0], true));
+            args.push(also_sexp(&doc, &fs));
+            node("c04-fault", args)
         }
         "separator-alone" => Doc::build(&root(vec![Obj::new("QAction").with_id("a").bind("separator", "true")]), &[], &[]).request(Mode::Omit),
         _ => node("bad-request", vec![]),
